@@ -58,6 +58,67 @@ def assigned_names(body):
     return names
 
 
+MUTATORS = ("append", "remove", "pop", "extend", "insert", "clear", "update", "add")
+
+
+def self_writes(body):
+    """Fields of `self` a loop body may write, found syntactically:
+    'direct'  self.A = …, self.A[…] = …, del self.A[…], self.A.append/pop/…(…), self.A += …
+    'object'  self.A.m(…) for any other method m (the object held in A may change its own state)
+    'visit'   a self.visit / self.generic_visit / any other self.m(…) call occurs"""
+    direct, objects, calls = set(), set(), False
+
+    def is_self_attr(n):
+        return isinstance(n, ast.Attribute) and isinstance(n.value, ast.Name) and n.value.id == "self"
+    for st in body:
+        for n in ast.walk(st):
+            if isinstance(n, (ast.Assign, ast.AugAssign, ast.AnnAssign, ast.Delete)):
+                tgts = n.targets if isinstance(n, (ast.Assign, ast.Delete)) else [n.target]
+                for t in tgts:
+                    for x in ast.walk(t):
+                        if is_self_attr(x):
+                            direct.add(x.attr)
+            if isinstance(n, ast.Call) and isinstance(n.func, ast.Attribute):
+                recv = n.func.value
+                if is_self_attr(recv):
+                    (direct if n.func.attr in MUTATORS else objects).add(recv.attr)
+                elif isinstance(recv, ast.Name) and recv.id == "self":
+                    calls = True
+                elif isinstance(recv, ast.Call) and isinstance(recv.func, ast.Name) and recv.func.id == "super":
+                    calls = True
+    return direct, objects, calls
+
+
+def havoc_self(ex, slf, body, spec):
+    """After (and at the head of) a loop the fields of self its body may write are unknown:
+    whatever the invariant says about them is all that is known."""
+    if not isinstance(slf, Obj):
+        return
+    direct, objects, calls = self_writes(body)
+    names = set(spec.get("modifies_self", [])) | direct
+    cc = ex.w.classes.get(slf.cls, {})
+    if calls:
+        names |= set(cc.get("visit_effects", {})) | set(cc.get("generic_effects", {}))
+    for a in sorted(names):
+        if a in slf.attrs and not isinstance(slf.attrs[a], Obj):
+            nv = havoc_like(ex, slf.attrs[a], f"self.{a}")
+            if isinstance(nv, Z) and isinstance(slf.attrs[a], Z):
+                nv.origin = slf.attrs[a].origin
+            slf.attrs[a] = nv
+    for a in sorted(objects | {x for x in names if isinstance(slf.attrs.get(x), Obj)}):
+        o = slf.attrs.get(a)
+        if isinstance(o, Obj) and o.cls in ex.w.classes:
+            oc = ex.w.classes[o.cls]
+            for sa in oc.get("state", {}):
+                if sa in o.attrs and not isinstance(o.attrs[sa], Obj):
+                    nv = havoc_like(ex, o.attrs[sa], f"self.{a}.{sa}")
+                    if isinstance(nv, Z) and isinstance(o.attrs[sa], Z):
+                        nv.origin = o.attrs[sa].origin
+                    o.attrs[sa] = nv
+            for inv in oc.get("invariant", []):
+                ex.assume(ex.to_bool(C.eval_spec_expr(ex, inv, {"self": o})))
+
+
 def concrete_items(ex, it):
     """Return a list of per-iteration values if the iterable has a concrete spine."""
     if isinstance(it, (CList, Tup)):
@@ -291,9 +352,7 @@ def run_for(ex, s, env, spec=None, label=None):
     # havoc
     for m in mods:
         env[m] = havoc_like(ex, env[m], m)
-    if isinstance(slf, Obj):
-        for a in spec.get("modifies_self", []):
-            slf.attrs[a] = havoc_like(ex, slf.attrs[a], f"self.{a}")
+    havoc_self(ex, slf, s.body, spec)
     done = ex.fresh("_done", S.PyList)
     rest = ex.fresh("_rest", S.PyList)
     idx = ex.fresh("_i", z3.IntSort())
@@ -369,6 +428,7 @@ def run_while(ex, s, env):
     mods = sorted(assigned_names(s.body) & set(env.keys()))
     for m in mods:
         env[m] = havoc_like(ex, env[m], m)
+    havoc_self(ex, env.get("self"), s.body, spec)
     for inv in spec.get("invariant", []):
         ex.assume(ex.to_bool(C.eval_spec_expr(ex, inv, env)))
     c = ex.to_bool(ex.ev(s.test, env))
